@@ -155,8 +155,11 @@ def check_chord_block(acc, ref_labels, est_labels, transform, tag):
     acc.transitions += 2 * len(COMPARE)
     try:
         v1 = vectors(ref_labels, est_labels)
-    except Exception as ex:  # noqa
+    except Exception as ex:  # noqa  (the panel was validated label by label at construction: this must not raise)
         acc.counters["chord.source_block_raises"] += 1
+        acc.violation("chord-%s" % tag.split(":")[0], "chord.<comparison>", {"kind": "chordblock", "tag": tag,
+                      "ref": ref_labels[:3], "est": est_labels[:3]},
+                      observed="comparison of grammar-valid panel labels raised %s: %s" % (type(ex).__name__, ex))
         return
     try:
         v2 = vectors(r2, e2)
